@@ -119,13 +119,13 @@ def run(a, rep):
         arms.append('        "err:%s" => probe::run_error::<g::com::verif::%s>(req),' % (n, n))
     main = H.DISPATCH_MAIN % {"mods": '#[path = "%s/mod.rs"]\nmod g;' % os.path.join(root, "gen"), "arms": "\n".join(arms)}
     crate = os.path.join(root, "bin")
-    H.write_crate(crate, "e2c17", main_rs=main)
+    H.write_crate(crate, "e2c17" + a.tier[0], main_rs=main)
     p = H.cargo(crate, "build", [], json_messages=True)
     if p.returncode != 0:
         errs = H.compile_errors(p.stdout)
         rep.cap("the generated error types do not compile (C03's business, no verdict here): %s" % (json.dumps(errs[:3]) if errs else p.stderr[-600:]))
         return
-    probe = H.Probe(os.path.join(H.E2_TARGET, "debug", "e2c17"))
+    probe = H.Probe(os.path.join(H.E2_TARGET, "debug", "e2c17" + a.tier[0]))
     model = M.Model(ir, M.Cfg(False, False))
     only = a.replay_case
     budget = 10 if thorough else 6
